@@ -529,7 +529,7 @@ def arch_lists(ctx, families=None, mean_units=None):
     from .ref.compat import compat
 
     r = ctx.rng
-    base = r.choice([arch_endinit, arch_random, arch_homo, arch_alternating, arch_stepgrowth, arch_star, arch_hyper, arch_graft])(ctx, families, mean_units)
+    base = r.choice([arch_endinit, arch_random, arch_homo, arch_alternating, arch_stepgrowth, arch_star, arch_hyper, arch_graft, arch_block, arch_block])(ctx, families, mean_units)
     for e in base.elements:
         if isinstance(e, StochAst):
             descs = e.all_descs()
